@@ -39,6 +39,9 @@ CHECKS = {
  'C13': dict(cat=MC, technique='TLA+ definition of broadcasting as a join of key tuples on shared index levels plus the recode/restore identity of the index cache (spec/broadcast); TLC enumerates every level-name layout x key set in the domain; each configuration built as pandas operands and Broadcaster.broadcast compared row by row, operands compared with deep copies',
    text='The space of level layouts (equal, disjoint, contained, overlapping, unnamed, falsy-named, coinciding key/code values) and small key sets is finite; TLC computes the definition-level result for each configuration and checks its consistency theorems, and every configuration is replayed into the real Broadcaster (Series/DataFrame kinds by seed); scalar/array/parameter-vector paths and a downstream Woehler calculation are checked separately.',
    note='row order and level order of the result are not prescribed by C13 and not compared; four open findings (C13-order2, C13-2x2overlap, C13-order3-keys, C13-int-level-name)', ref='5 C13'),
+ 'C14': dict(cat=MC, technique='TLA+ model of the collective identities, numpy class rule, range/mean marginal and overlap-proportional re-binning in exact integers/rationals (spec/collective/Histo.tla); TLC enumerates rows x bin specifications x source/target binnings; every state evaluated through load_collective / rebin_histogram / combine_histogram',
+   text='"Each cycle in exactly one class", "range histogram = marginal", "re-binning conserves the total / is the identity" and the from/to-range/mean-scale-shift identities are exact combinatorial statements on integer data; TLC proves them on the specification for every configuration of the bounded instance and each configuration is an implementation test (several collective layouts, bin forms, class orders, 2-D target level orders).',
+   note='integer loads and edges; open finding C14-cycles-ignored; fixed defect C14-single-interval', ref='5 C14'),
 }
 PENDING = 'check not built yet in this round (planned, see DESIGN.md section 5)'
 NA = {
